@@ -50,6 +50,9 @@ def main() -> int:
         r = res[n]
         mp = os.path.join(SEEDED, n, "meta.json")
         meta = json.load(open(mp))
+        if meta.get("superseded"):
+            print(f"{n}: superseded ({meta['superseded'][:80]}...)")
+            continue
         if not r["applies"]:
             meta["applies_to_current_tree"] = False
             print(f"{n}: does not apply ({r.get('error')})")
